@@ -1,2 +1,453 @@
-// Package c14: correspondence harness for property C14 (stub — registers nothing yet).
+// Package c14: variables resolve by documented precedence at every role.
+//
+// Input  : (style env tree tmpl)
+//
+//	style := 0 | 1 | 2            -- YAML rendering of defaults/vars: quoted scalars | empty as bare null | !public mappings
+//	kv    := ((key value)*)        -- value "" = defined empty; a key that is not listed is absent
+//	env   := () | (D V U)          -- GlobalDefaults / GlobalVars / environment UserVars behind a real ParentAdapter
+//	tree  := (kind D V U L tree*)  -- kind A|T|C; defaults, vars (YAML), user vars (SetRuntimeVar), iterator locals
+//	tmpl  := () | (TD TV)          -- task template defaults / vars, applied at every T leaf
+//
+// Obs    : (role*) in pre-order, role := (stack fstack (D V U) (Dg Vg Ug) (s0 … s5) task)
+//
+//	stack  ConsolidatedVarStack()                        (whole map, sorted)
+//	fstack gera.FlattenStack(defaults, vars, userVars)   (as iteratorRole.expandTemplate calls it on the parent)
+//	D V U  ConsolidatedVarMaps()                         (whole maps, sorted)
+//	?g     GetDefaults()/GetVars()/GetUserVars().Get(k)  for every key of the input
+//	s_i    what a `{{ k }}` field sees at template stage i of Sequence.Execute, for every key
+//	task   () | (cmd props): what the command line (BuildTaskCommand) and a property
+//	       (BuildPropertyMap) of a task with template tmpl see, for every key
+//
+// The role tree is built by unmarshalling generated YAML with the package's own
+// unmarshallers; the root is attached to a real workflow.ParentAdapter through
+// the build-tag hook workflow.VerifC14SetParent (= the unexported setParent).
 package c14
+
+import (
+	"fmt"
+	"sort"
+	"strings"
+	"sync"
+	texttemplate "text/template"
+
+	"github.com/AliceO2Group/Control/common/event"
+	"github.com/AliceO2Group/Control/common/gera"
+	"github.com/AliceO2Group/Control/common/utils/uid"
+	"github.com/AliceO2Group/Control/configuration/template"
+	"github.com/AliceO2Group/Control/core/task"
+	"github.com/AliceO2Group/Control/core/task/channel"
+	"github.com/AliceO2Group/Control/core/task/sm"
+	"github.com/AliceO2Group/Control/core/task/taskclass"
+	"github.com/AliceO2Group/Control/core/workflow"
+	"github.com/spf13/viper"
+	"gopkg.in/yaml.v3"
+
+	"verifharness/sx"
+)
+
+var specialKeys = map[string]bool{"task_name": true, "task_id": true, "task_class_name": true,
+	"task_hostname": true, "environment_id": true, "task_parent_role": true}
+
+// ---- input helpers ---------------------------------------------------------------
+
+type kv = [][2]string
+
+func kvOf(n *sx.Node) kv {
+	var out kv
+	for _, e := range n.List {
+		out = append(out, [2]string{e.At(0).Str(), e.At(1).Str()})
+	}
+	return out
+}
+
+func kvMap(n *sx.Node) map[string]string {
+	m := map[string]string{}
+	for _, e := range kvOf(n) {
+		if _, dup := m[e[0]]; !dup { // first binding wins, as in the model
+			m[e[0]] = e[1]
+		}
+	}
+	return m
+}
+
+func collectKeys(n *sx.Node, set map[string]bool) {
+	// every (key value) pair anywhere in the input
+	if !n.IsList {
+		return
+	}
+	if len(n.List) == 2 && !n.List[0].IsList && !n.List[1].IsList {
+		set[n.List[0].Str()] = true
+		return
+	}
+	for _, c := range n.List {
+		collectKeys(c, set)
+	}
+}
+
+func universe(in *sx.Node) []string {
+	set := map[string]bool{}
+	env := in.At(1)
+	for _, m := range env.List {
+		collectKeys(m, set)
+	}
+	var walk func(t *sx.Node)
+	walk = func(t *sx.Node) {
+		for i := 1; i <= 4; i++ {
+			collectKeys(t.At(i), set)
+		}
+		for i := 5; i < t.Len(); i++ {
+			walk(t.At(i))
+		}
+	}
+	walk(in.At(2))
+	for _, m := range in.At(3).List {
+		collectKeys(m, set)
+	}
+	keys := make([]string, 0, len(set))
+	for k := range set {
+		keys = append(keys, k)
+	}
+	sort.Strings(keys)
+	return keys
+}
+
+// ---- YAML ------------------------------------------------------------------------
+
+func yq(s string) string { return "\"" + strings.NewReplacer("\\", "\\\\", "\"", "\\\"").Replace(s) + "\"" }
+
+func yamlMap(b *strings.Builder, indent, name string, m kv, style int) {
+	if len(m) == 0 {
+		return
+	}
+	fmt.Fprintf(b, "%s%s:\n", indent, name)
+	seen := map[string]bool{}
+	for _, e := range m {
+		if seen[e[0]] {
+			continue
+		}
+		seen[e[0]] = true
+		switch {
+		case style == 1 && e[1] == "":
+			fmt.Fprintf(b, "%s  %s:\n", indent, e[0])
+		case style == 2:
+			fmt.Fprintf(b, "%s  %s: !public\n%s    value: %s\n%s    type: string\n%s    label: %s\n", indent, e[0], indent, yq(e[1]), indent, indent, yq("L "+e[0]))
+		default:
+			fmt.Fprintf(b, "%s  %s: %s\n", indent, e[0], yq(e[1]))
+		}
+	}
+}
+
+func yamlOf(n *sx.Node, name, indent string, b *strings.Builder, top bool, style int) {
+	pre, cont := indent+"- ", indent+"  "
+	if top {
+		pre, cont = "", ""
+	}
+	fmt.Fprintf(b, "%sname: %s\n", pre, name)
+	yamlMap(b, cont, "defaults", kvOf(n.At(1)), style)
+	yamlMap(b, cont, "vars", kvOf(n.At(2)), style)
+	switch n.At(0).Str() {
+	case "T":
+		fmt.Fprintf(b, "%stask:\n%s  load: cls\n", cont, cont)
+	case "C":
+		fmt.Fprintf(b, "%scall:\n%s  func: noop()\n", cont, cont)
+	default:
+		if n.Len() == 5 {
+			fmt.Fprintf(b, "%sroles: []\n", cont)
+			return
+		}
+		fmt.Fprintf(b, "%sroles:\n", cont)
+		for i := 5; i < n.Len(); i++ {
+			yamlOf(n.At(i), fmt.Sprintf("%s_%d", name, i-5), cont+"  ", b, false, style)
+		}
+	}
+}
+
+// ---- the real objects ---------------------------------------------------------------
+
+var confOnce sync.Once
+
+func build(in *sx.Node) (workflow.Role, error) {
+	style := in.At(0).Int()
+	var b strings.Builder
+	yamlOf(in.At(2), "r", "", &b, true, style)
+	root := workflow.NewAggregatorRole("", nil)
+	if err := yaml.Unmarshal([]byte(b.String()), root); err != nil {
+		return nil, fmt.Errorf("yaml: %v\n%s", err, b.String())
+	}
+	if env := in.At(1); env.Len() == 3 {
+		gd := gera.MakeMapWithMap(kvMap(env.At(0)))
+		gv := gera.MakeMapWithMap(kvMap(env.At(1)))
+		uv := gera.MakeMapWithMap(kvMap(env.At(2)))
+		adapter := workflow.NewParentAdapter(
+			func() uid.ID { return uid.NilID() },
+			func() uint32 { return 0 },
+			func() gera.Map[string, string] { return gd },
+			func() gera.Map[string, string] { return gv },
+			func() gera.Map[string, string] { return uv },
+			func(event.Event) {},
+		)
+		workflow.VerifC14SetParent(root, adapter)
+	}
+	workflow.LinkChildrenToParents(root)
+	// user vars: per role, through the exported runtime-var API
+	var walk func(r workflow.Role, t *sx.Node) error
+	walk = func(r workflow.Role, t *sx.Node) error {
+		r.SetRuntimeVars(kvMap(t.At(3)))
+		kids := r.GetRoles()
+		if len(kids) != t.Len()-5 {
+			return fmt.Errorf("tree shape lost in YAML round trip: %d children for %s", len(kids), t.String())
+		}
+		for i, c := range kids {
+			if err := walk(c, t.At(5+i)); err != nil {
+				return err
+			}
+		}
+		return nil
+	}
+	if err := walk(root, in.At(2)); err != nil {
+		return nil, err
+	}
+	return root, nil
+}
+
+func dumpMap(m map[string]string) *sx.Node {
+	keys := make([]string, 0, len(m))
+	for k := range m {
+		keys = append(keys, k)
+	}
+	sort.Strings(keys)
+	out := sx.L()
+	for _, k := range keys {
+		out.Add(sx.L(sx.A(k), sx.A(m[k])))
+	}
+	return out
+}
+
+func getAll(m gera.Map[string, string], keys []string) *sx.Node {
+	out := sx.L()
+	for _, k := range keys {
+		if v, ok := m.Get(k); ok {
+			out.Add(sx.L(sx.A(k), sx.A(v)))
+		}
+	}
+	return out
+}
+
+// probeValue turns the outcome of one `[{{ k }}]` field into (value, present).
+func probeValue(k, out string, err error) (string, bool) {
+	if err != nil {
+		if strings.Contains(err.Error(), "unknown name "+k) {
+			return "", false
+		}
+		return "!err:" + firstWords(err.Error()), true
+	}
+	if len(out) >= 2 && out[0] == '[' && out[len(out)-1] == ']' {
+		return out[1 : len(out)-1], true
+	}
+	return "!raw:" + out, true
+}
+
+func firstWords(s string) string {
+	s = strings.Map(func(c rune) rune {
+		if c == '\t' || c == '\n' || c == '(' || c == ')' || c == '"' || c == '\\' {
+			return ' '
+		}
+		return c
+	}, s)
+	if len(s) > 60 {
+		s = s[:60]
+	}
+	return s
+}
+
+func asWrap(m gera.Map[string, string]) (*gera.WrapMap[string, string], error) {
+	w, ok := m.(*gera.WrapMap[string, string])
+	if !ok {
+		return nil, fmt.Errorf("role map is not a *gera.WrapMap")
+	}
+	return w, nil
+}
+
+// stageProbes runs the real template.Sequence.Execute with one probe field per
+// stage; when the probe of stage s fails (key not visible) the sequence aborts,
+// so the remaining stages are probed by a further run.
+func stageProbes(r workflow.Role, locals map[string]string, keys []string) (*sx.Node, error) {
+	d, err := asWrap(r.GetDefaults())
+	if err != nil {
+		return nil, err
+	}
+	v, err := asWrap(r.GetVars())
+	if err != nil {
+		return nil, err
+	}
+	u, err := asWrap(r.GetUserVars())
+	if err != nil {
+		return nil, err
+	}
+	stages := make([]*sx.Node, 6)
+	for i := range stages {
+		stages[i] = sx.L()
+	}
+	noObjects := func(template.Stage) map[string]interface{} { return map[string]interface{}{} }
+	for _, k := range keys {
+		from := 0
+		for from < 6 {
+			fields := make([]string, 6)
+			seq := template.Sequence{}
+			for s := from; s < 6; s++ {
+				fields[s] = "[{{ " + k + " }}]"
+				seq[template.Stage(s)] = template.Fields{template.WrapPointer(&fields[s])}
+			}
+			failedAt := -1
+			var failErr error
+			err := seq.Execute(nil, r.GetPath(),
+				template.VarStack{Locals: locals, Defaults: d, Vars: v, UserVars: u},
+				noObjects, nil, make(map[string]texttemplate.Template), nil,
+				func(st template.Stage, e error) error {
+					if e != nil && failedAt < 0 {
+						failedAt, failErr = int(st), e
+					}
+					return e
+				})
+			if err != nil && failedAt < 0 {
+				return nil, fmt.Errorf("Sequence.Execute failed outside a stage: %v", err)
+			}
+			last := 5
+			if failedAt >= 0 {
+				last = failedAt
+			}
+			for s := from; s <= last; s++ {
+				var e error
+				if s == failedAt {
+					e = failErr
+				}
+				if val, ok := probeValue(k, fields[s], e); ok {
+					stages[s].Add(sx.L(sx.A(k), sx.A(val)))
+				}
+			}
+			from = last + 1
+		}
+	}
+	return sx.L(stages...), nil
+}
+
+// taskParentRole is the method set of the task package's (unexported) parentRole
+// interface; the real *taskRole satisfies it.
+type taskParentRole interface {
+	workflow.Role
+	UpdateStatus(task.Status)
+	UpdateState(sm.State)
+	GetTaskClass() string
+	GetTaskTraits() task.Traits
+	SetTask(*task.Task)
+	CollectOutboundChannels() []channel.Outbound
+	CollectInboundChannels() []channel.Inbound
+	SendEvent(event.Event)
+}
+
+func classYAML(td, tv kv) string {
+	var b strings.Builder
+	b.WriteString("name: cls\n")
+	yamlMap(&b, "", "defaults", td, 0)
+	yamlMap(&b, "", "vars", tv, 0)
+	b.WriteString("control:\n  mode: direct\ncommand:\n  value: \"x\"\nproperties:\n  probe: \"x\"\n")
+	return b.String()
+}
+
+func taskProbes(r workflow.Role, tmpl *sx.Node, keys []string) (*sx.Node, error) {
+	confOnce.Do(func() { viper.Set("configServiceUri", "mock://") })
+	parent, ok := r.(taskParentRole)
+	if !ok {
+		return nil, fmt.Errorf("task leaf does not implement the task package's parent-role interface")
+	}
+	cmd, props := sx.L(), sx.L()
+	for _, k := range keys {
+		class := &taskclass.Class{}
+		if err := yaml.Unmarshal([]byte(classYAML(kvOf(tmpl.At(0)), kvOf(tmpl.At(1)))), class); err != nil {
+			return nil, fmt.Errorf("class yaml: %v", err)
+		}
+		probe := "[{{ " + k + " }}]"
+		*class.Command.Value = probe
+		class.Properties.Set("probe", probe)
+		t := task.VerifC14NewTask(class, parent, "cls#1")
+		err := t.BuildTaskCommand(parent)
+		out := ""
+		if ci := t.GetTaskCommandInfo(); err == nil && ci != nil && ci.Value != nil {
+			out = *ci.Value
+		}
+		if val, ok := probeValue(k, out, err); ok {
+			cmd.Add(sx.L(sx.A(k), sx.A(val)))
+		}
+		pm, err := t.BuildPropertyMap(nil)
+		if val, ok := probeValue(k, pm["probe"], err); ok {
+			props.Add(sx.L(sx.A(k), sx.A(val)))
+		}
+	}
+	return sx.L(cmd, props), nil
+}
+
+func runImpl(input string) (string, error) {
+	in, err := sx.Parse(input)
+	if err != nil {
+		return "", err
+	}
+	if in.Len() != 4 {
+		return "", fmt.Errorf("bad input arity")
+	}
+	keys := universe(in)
+	for _, k := range keys {
+		if specialKeys[k] {
+			return "", fmt.Errorf("input uses the task-special key %s", k)
+		}
+	}
+	root, err := build(in)
+	if err != nil {
+		return "", err
+	}
+	obs := sx.L()
+	var walk func(r workflow.Role, t *sx.Node) error
+	walk = func(r workflow.Role, t *sx.Node) error {
+		ro := sx.L()
+		if st, err := r.ConsolidatedVarStack(); err != nil {
+			ro.Add(sx.L(sx.A("err")))
+		} else {
+			ro.Add(dumpMap(st))
+		}
+		if fs, err := gera.FlattenStack(r.GetDefaults(), r.GetVars(), r.GetUserVars()); err != nil {
+			ro.Add(sx.L(sx.A("err")))
+		} else {
+			ro.Add(dumpMap(fs))
+		}
+		if d, v, u, err := r.ConsolidatedVarMaps(); err != nil {
+			ro.Add(sx.L(sx.A("err")))
+		} else {
+			ro.Add(sx.L(dumpMap(d), dumpMap(v), dumpMap(u)))
+		}
+		ro.Add(sx.L(getAll(r.GetDefaults(), keys), getAll(r.GetVars(), keys), getAll(r.GetUserVars(), keys)))
+		sp, err := stageProbes(r, kvMap(t.At(4)), keys)
+		if err != nil {
+			return err
+		}
+		ro.Add(sp)
+		if t.At(0).Str() == "T" && in.At(3).Len() == 2 {
+			tp, err := taskProbes(r, in.At(3), keys)
+			if err != nil {
+				return err
+			}
+			ro.Add(tp)
+		} else {
+			ro.Add(sx.L())
+		}
+		obs.Add(ro)
+		for i, c := range r.GetRoles() {
+			if err := walk(c, t.At(5+i)); err != nil {
+				return err
+			}
+		}
+		return nil
+	}
+	if err := walk(root, in.At(2)); err != nil {
+		return "", err
+	}
+	return obs.String(), nil
+}
